@@ -13,7 +13,7 @@ use std::{
     panic::{catch_unwind, AssertUnwindSafe},
     rc::Rc,
     sync::{
-        atomic::{AtomicBool, Ordering},
+        atomic::{AtomicBool, AtomicU64, Ordering},
         Arc,
     },
     task::{Context, Poll, Wake, Waker},
@@ -26,33 +26,61 @@ pub struct BadScript;
 // Tasks
 // ---------------------------------------------------------------------------------------------
 
-struct TaskWaker {
+/// `wk=fresh`: every poll hands the future a NEW waker and only the waker of the most recent poll still wakes the task
+/// (a future is required to wake the waker of its latest poll, nothing more: it may have been moved to another task).
+static FRESH_WAKERS: AtomicBool = AtomicBool::new(false);
+
+pub fn set_fresh_wakers(on: bool) {
+    FRESH_WAKERS.store(on, Ordering::SeqCst);
+}
+
+struct TaskFlag {
     woken: AtomicBool,
+    /// Generation of the waker handed out by the most recent poll.
+    current: AtomicU64,
+}
+
+struct TaskWaker {
+    flag: Arc<TaskFlag>,
+    /// `None`: wakes whatever the generation (default mode).
+    gen: Option<u64>,
+}
+
+impl TaskWaker {
+    fn fire(&self) {
+        if self.gen.is_none() || self.gen == Some(self.flag.current.load(Ordering::SeqCst)) {
+            self.flag.woken.store(true, Ordering::SeqCst);
+        }
+    }
 }
 
 impl Wake for TaskWaker {
     fn wake(self: Arc<Self>) {
-        self.woken.store(true, Ordering::SeqCst);
+        self.fire();
     }
 
     fn wake_by_ref(self: &Arc<Self>) {
-        self.woken.store(true, Ordering::SeqCst);
+        self.fire();
     }
 }
 
 struct Task<F> {
     fut: F,
-    flag: Arc<TaskWaker>,
+    flag: Arc<TaskFlag>,
     waker: Waker,
 }
 
 impl<F> Task<F> {
     /// A new task starts flagged.
     fn new(fut: F) -> Self {
-        let flag = Arc::new(TaskWaker {
+        let flag = Arc::new(TaskFlag {
             woken: AtomicBool::new(true),
+            current: AtomicU64::new(0),
         });
-        let waker = Waker::from(flag.clone());
+        let waker = Waker::from(Arc::new(TaskWaker {
+            flag: flag.clone(),
+            gen: None,
+        }));
         Self { fut, flag, waker }
     }
 
@@ -62,6 +90,18 @@ impl<F> Task<F> {
 
     fn set_flag(&self, val: bool) {
         self.flag.woken.store(val, Ordering::SeqCst);
+    }
+
+    fn waker_for_poll(&self) -> Waker {
+        if FRESH_WAKERS.load(Ordering::SeqCst) {
+            let gen = self.flag.current.fetch_add(1, Ordering::SeqCst) + 1;
+            Waker::from(Arc::new(TaskWaker {
+                flag: self.flag.clone(),
+                gen: Some(gen),
+            }))
+        } else {
+            self.waker.clone()
+        }
     }
 }
 
@@ -77,7 +117,7 @@ fn poll_guarded<F, T>(
     poll: impl FnOnce(&mut F, &mut Context<'_>) -> Poll<T>,
 ) -> Polled<T> {
     task.set_flag(false);
-    let waker = task.waker.clone();
+    let waker = task.waker_for_poll();
     let fut = &mut task.fut;
 
     let res = catch_unwind(AssertUnwindSafe(move || {
@@ -142,6 +182,7 @@ pub struct Harness {
 
 impl Harness {
     pub fn new(cfg: Cfg) -> Self {
+        set_fresh_wakers(cfg.fresh_wakers);
         Self {
             cfg,
             ctx_task: None,
